@@ -268,6 +268,53 @@ def directed_capture_cases(failures):
     return count
 
 
+
+def directed_name_cuts(failures):
+    """A cut given by NAME denotes the same region as the same cut given by OBJECT, also when a nested body reuses a name of
+    the graph being extracted from (the enclosing graph's value with that name being produced after the control-flow node)."""
+    from onnx_ir import convenience
+    count = 0
+
+    def op(name, inputs, out_name, attrs=()):
+        nd = ir.Node("", "Op", inputs=list(inputs), num_outputs=1, name=name, attributes=list(attrs))
+        nd.outputs[0].name = out_name
+        return nd
+
+    def build():
+        x = ir.Value(name="x")
+        a = op("a", [x], "va")
+        inner1 = op("in1", [a.outputs[0]], "h")                 # body value named `h` ...
+        inner2 = op("in2", [inner1.outputs[0]], "b_out")
+        body = ir.Graph([], [inner2.outputs[0]], nodes=[inner1, inner2], name="body")
+        ctl = op("ctl", [a.outputs[0]], "r", attrs=[ir.AttrGraph("body", body)])
+        h = op("mk_h", [ctl.outputs[0]], "h")                   # ... and the OUTER `h`, produced after the control-flow node
+        t = op("t", [h.outputs[0], a.outputs[0]], "y")
+        g = ir.Graph([x], [t.outputs[0]], nodes=[a, ctl, h, t], name="main")
+        vals = {"x": x, "va": a.outputs[0], "r": ctl.outputs[0], "h": h.outputs[0], "y": t.outputs[0]}
+        return g, vals
+
+    names = ["x", "va", "r", "h", "y"]
+    import itertools as _it
+    for r_in in (1, 2):
+        for ins in _it.combinations(names, r_in):
+            for outs in [(o,) for o in names]:
+                count += 1
+
+                def run(by_name):
+                    g, vals = build()
+                    i_args = list(ins) if by_name else [vals[n] for n in ins]
+                    o_args = list(outs) if by_name else [vals[n] for n in outs]
+                    try:
+                        res = convenience.extract(g, i_args, o_args)
+                        return ("ok", [n.name for n in res], sorted(k for k in res.initializers), [v.name for v in res.inputs], [v.name for v in res.outputs])
+                    except Exception as e:  # noqa: BLE001
+                        return ("raise", type(e).__name__)
+                a_, b_ = run(False), run(True)
+                if a_ != b_:
+                    failures.append(f"extract inputs={ins} outputs={outs}: by object -> {a_}, by name -> {b_}"[:400])
+    return count
+
+
 def specs(tier, rnd):
     labels0 = ["x0", "x1", "w"]
     out = []
@@ -299,7 +346,7 @@ def main():
     rnd = random.Random(a.seed)
     failures, evaluations, distinct, samples = [], 0, set(), []
     from onnx_ir.analysis import analyze_implicit_usage
-    nd = directed_capture_cases(failures)
+    nd = directed_capture_cases(failures) + directed_name_cuts(failures)
     evaluations += nd
     for i in range(nd):
         distinct.add(("capture-directed", i))
